@@ -49,6 +49,7 @@ TStep ==
           /\ Chk("C09", "IdsFresh", IdsFresh, e)
           /\ Chk("C10", "ClaimTermsMonotone", ClaimTermsMonotone, e)
           /\ Chk("C10", "ClaimRemovalOnlyExpired", ClaimRemovalOnlyExpired, e)
+          /\ Chk("C10", "ClaimWithinTerms", ClaimWithinTerms, e)
           /\ Chk("C09", "RejectedIsNoop", RejectedIsNoop, e)
           /\ (IF Explained(e) THEN TRUE ELSE PrintT(<<"DRIFT", "C09", l, e.a, e.ok>>))
 TInit == /\ VR = [verifiers |-> <<>>, tok |-> [h \in Holders |-> 0], supply |-> 0, allocs |-> <<>>, claims |-> <<>>, next |-> 1]
